@@ -308,6 +308,103 @@ def check_corruptions(spec, ctx):
     expect_refusal(ctx, "Location:relative_to_disjoint", lambda: SingleInterval(a, b, Strand.PLUS).parent_to_relative_location(SingleInterval(b + 1, b + 2, Strand.PLUS)), lambda x: "accepted")
 
 
+# ------------------------------------------------------------------------------------ mismatched parents, systematically
+# "mismatched or missing parents" is a whole family of corruptions: two operands whose parents differ in exactly ONE aspect that
+# Parent.equals_except_location documents as significant, through every two-operand operation that documents a parent check.
+
+_G = "ACGTACGTTGCATGCAACGTAGCTAGCTAACG"
+
+
+def _seq(s):
+    return Sequence(s, Alphabet.NT_STRICT)
+
+
+def parent_pair(kind):
+    base = Parent(id="chr1", sequence_type="chromosome", sequence=_seq(_G))
+    if kind == "id":
+        return base, Parent(id="chr2", sequence_type="chromosome", sequence=_seq(_G))
+    if kind == "id_no_sequence":
+        return Parent(id="chr1", sequence_type="chromosome"), Parent(id="chr2", sequence_type="chromosome")
+    if kind == "sequence_type":
+        return base, Parent(id="chr1", sequence_type="contig", sequence=_seq(_G))
+    if kind == "sequence_content":
+        return base, Parent(id="chr1", sequence_type="chromosome", sequence=_seq(_G[::-1]))
+    if kind == "sequence_presence":
+        return base, Parent(id="chr1", sequence_type="chromosome")
+    if kind == "no_id_sequence_content":
+        return Parent(sequence=_seq(_G)), Parent(sequence=_seq(_G[::-1]))
+    if kind == "grandparent":
+        def gp(i):
+            return Parent(id="chr1", sequence_type="sequence_chunk", sequence=_seq(_G),
+                          parent=Parent(id="gp%d" % i, sequence_type="chromosome", location=SingleInterval(0, len(_G), Strand.PLUS)))
+        return gp(1), gp(2)
+    if kind == "missing":
+        return base, None
+    raise ValueError(kind)
+
+
+MISMATCH_KINDS = ["id", "id_no_sequence", "sequence_type", "sequence_content", "sequence_presence", "no_id_sequence_content", "grandparent", "missing"]
+MISMATCH_OPS = {
+    "union": lambda a, b: a.union(b),
+    "union_preserve_overlaps": lambda a, b: a.union_preserve_overlaps(b),
+    "distance_to": lambda a, b: a.distance_to(b),
+    "distance_to_outer": lambda a, b: a.distance_to(b, DistanceType.OUTER),
+    "intersection_strict": lambda a, b: a.intersection(b, strict_parent_compare=True),
+    "minus_strict": lambda a, b: a.minus(b, strict_parent_compare=True),
+    "has_overlap_strict": lambda a, b: a.has_overlap(b, strict_parent_compare=True),
+    "contains_strict": lambda a, b: a.contains(b, strict_parent_compare=True),
+    "location_relative_to": lambda a, b: a.location_relative_to(b),
+    "parent_to_relative_location": lambda a, b: a.parent_to_relative_location(b),
+    "from_single_intervals": lambda a, b: CompoundInterval.from_single_intervals(list(a.blocks) + list(b.blocks)),
+    "from_single_intervals_interleaved": lambda a, b: CompoundInterval.from_single_intervals(list(b.blocks)[:1] + list(a.blocks) + list(b.blocks)[1:]),
+}
+# with one parent missing, union-like operations are only checked parent-first (parentless.union(parented) is accepted
+# by design: "if self.parent: ..."); the others must refuse in both orders
+MISSING_ONE_ORDER = {"union", "union_preserve_overlaps"}
+LAYOUTS = {"overlapping": ([[2, 10]], [[4, 14]]), "nested": ([[2, 16]], [[5, 9]]), "compound_overlap": ([[2, 6], [8, 12]], [[4, 7], [11, 15]]),
+           "compound_single": ([[2, 6], [8, 12]], [[5, 9]]), "equal": ([[3, 9]], [[3, 9]]), "three_blocks": ([[1, 3], [5, 8], [10, 12]], [[2, 11]])}
+
+
+def check_parent_mismatch(spec, ctx):
+    kind, opname, strand, order = spec["kind"], spec["op"], spec["strand"], spec["order"]
+    pa, pb = parent_pair(kind)
+    ba, bb = LAYOUTS[spec["layout"]]
+    A = mkloc_blocks(ba, strand, pa)
+    B = mkloc_blocks(bb, strand, pb)
+    if order:
+        A, B = B, A
+    ctx.nt(kind)
+    if kind == "missing" and opname in MISSING_ONE_ORDER and A.parent is None:
+        ctx.label("parentless_first_accepted_by_design")
+        attempt(ctx, "mismatch:%s:%s" % (kind, opname), lambda: MISMATCH_OPS[opname](A, B))
+        return
+    out = attempt(ctx, "mismatch:%s:%s" % (kind, opname), lambda: MISMATCH_OPS[opname](A, B))
+    if out.kind == "value":
+        ctx.fail("accepted_mismatched_parents:%s:%s" % (opname, kind), {"result": repr(out.value)[:160], "layout": spec["layout"], "order": order})
+    elif out.kind == "typeerror":
+        ctx.fail("typeerror_for_mismatched_parents:%s:%s" % (opname, kind), repr(out.exc)[:160])
+    # control: the same operands on ONE parent are accepted (so the refusal above is about the parents, nothing else)
+    if pa is not None:
+        A2, B2 = mkloc_blocks(ba, strand, pa), mkloc_blocks(bb, strand, pa)
+        if order:
+            A2, B2 = B2, A2
+        ctl = attempt(ctx, "control:%s" % opname, lambda: MISMATCH_OPS[opname](A2, B2))
+        if ctl.kind == "value":
+            ctx.label("control_accepted")
+
+
+def enum_parent_mismatch(tier, shard, nshards):
+    i = 0
+    for kind in MISMATCH_KINDS:
+        for opname in MISMATCH_OPS:
+            for layout in LAYOUTS:
+                for strand in ("+", "-"):
+                    for order in (0, 1):
+                        i += 1
+                        if i % nshards == shard:
+                            yield {"kind": kind, "op": opname, "layout": layout, "strand": strand, "order": order}
+
+
 # ------------------------------------------------------------------------------------ method sweep
 
 
@@ -590,6 +687,12 @@ PROP = Prop(
             must_hit=["kind:loc", "kind:tx", "kind:gene", "kind:collection", "kind:vc", "parent:chunk", "empty_3p_utr", "cds_no_complete_codon", "window==len",
                       "merged_feature_without_gene_type", "empty_query_result"],
             rule="valid locations, transcripts (+CDS), features, genes, feature collections, annotation collections, variant collections on no parent / chromosome / chunk (incl. chunks that miss or cut the object): every public accessor/method of a registry with in-range and boundary arguments (0, len-1, len, len+1, window == length, zero-length requests, windows at the CDS ends)"),
+        Leg("parent_mismatch", check_parent_mismatch, enumerate=enum_parent_mismatch, exhaustive=True, shards_quick=8, shards_thorough=8,
+            must_hit=["control_accepted"],
+            rule="8 ways two parents can differ in exactly one significant aspect (id, id without sequences, sequence type, sequence content, sequence presence, "
+                 "content without ids, grandparent, one missing) x 12 two-operand operations that document a parent check (union, union_preserve_overlaps, "
+                 "distance_to, strict intersection/minus/has_overlap/contains, location_relative_to, parent_to_relative_location, from_single_intervals) x 6 "
+                 "operand layouts x both strands x both operand orders: must refuse with a documented exception; the same operands on one parent are the control"),
     ],
     level="fault_enumeration",
     rule="Outcome must be a documented exception (BioCantorException subclass, ValueError, NotImplementedError; TypeError recorded) or a value that passes the "
